@@ -584,8 +584,14 @@ def extrusion_mesh(xy, h):
 
 def perturbed_hull_mesh(rng, n=None):
     n = int(n or rng.integers(6, 25))
-    P = _sphere_points(rng, n, 0.35)
-    h = geom.hull_facets(P)
+    for _ in range(200):
+        P = _sphere_points(rng, n, 0.35)
+        h = geom.hull_facets(P)
+        # the origin must be well inside the hull, otherwise the radial perturbation is not a radial graph
+        # (a first version allowed all points on one hemisphere and produced self-intersecting, inside-out meshes)
+        if h.signed_dist(np.zeros((1, 3)))[0] < -0.2:
+            break
+        n = max(n, 8)
     faces = [list(f) for f in h.facets]
     if any(len(f) != 3 for f in faces):
         faces = [list(t) for f in faces for t in geom.fan(f)]
